@@ -186,7 +186,7 @@ func check(c Case) (saved []byte, err error) {
 		fresh := sess.New(cfg)
 		switch how {
 		case "autoload":
-			if lerr := repl.AutoLoad(fresh.St, repl.Options{AutoLoad: true}); lerr != nil {
+			if lerr := repl.AutoLoad(fresh.St, repl.Options{AutoLoad: true, MaxValueLen: c.MaxValueLen}); lerr != nil {
 				return saved, fmt.Errorf("auto-load (line at a time) of the saved file failed: %v\nfile:\n%s", lerr, trunc(saved))
 			}
 		default:
@@ -422,6 +422,47 @@ func TestStates(t *testing.T) {
 }
 
 // repeated save -> load -> mutate -> save cycles through the language's own save() / load()
+// bindings whose saved line is long: around the length limit (4000 by default), around 64 KiB (a common line
+// buffer size) and well beyond, as a named function (saved whatever its length), an anonymous one and a string,
+// with other bindings sorted before and after.
+func TestLongBindings(t *testing.T) {
+	idx := 0
+	for _, size := range []int{3000, 4500, 5200, 20000, 65000, 66000, 200000} {
+		for _, limit := range []int{0, 4000} {
+			for _, kind := range []string{"named-function", "lambda", "string", "array"} {
+				idx++
+				if !pbt.Mine(idx) {
+					continue
+				}
+				var stmts []string
+				for i := 0; len(strings.Join(stmts, "; ")) < size; i++ {
+					stmts = append(stmts, fmt.Sprintf("x%d = %d", i, i))
+				}
+				body := strings.Join(stmts, "; ")
+				var def string
+				switch kind {
+				case "named-function":
+					def = "func lookup() { " + body + "; 7 }"
+				case "lambda":
+					def = "lookup = () => { " + body + "; 7 }"
+				case "string":
+					def = "lookup = \"" + strings.Repeat("s", size) + "\""
+				default:
+					def = "lookup = [" + strings.Repeat("1, ", size/3) + "1]"
+				}
+				c := Case{Defs: []string{"aa = 1", def, "mid = [1, 2]", "zz = \"last\"", "func zzf(a) { a + 1 }"}, MaxValueLen: limit,
+					Calls: []string{"println(aa, mid, zz, zzf(1))", "println(len(str(lookup)))"}}
+				if _, err := check(c); err != nil {
+					short := c
+					short.Defs = append([]string{}, c.Defs...)
+					pbt.Fail(t, "long", short, "%s of about %d bytes, length limit %d: %.1500s", kind, size, limit, err.Error())
+				}
+				pbt.CaseExact(true, "long-binding:"+kind)
+			}
+		}
+	}
+}
+
 func TestCycles(t *testing.T) {
 	pbt.Check(t, 300, 30000, func(rt *rapid.T) {
 		_ = os.Remove(filepath.Join(scratch, "cyc.gr"))
